@@ -129,18 +129,54 @@ def run(ctx):
     dp, cp, chp = fs.params[:3]
     src = ast.unparse(fs.node)
     PF = Pat(fs)
-    red = [x for x in fs.nodes(ast.Assign) if isinstance(x.targets[0], ast.Subscript) and const_value(x.value) == -1]
-    okr = bool(red) and 'np.isin(' in unparse(red[0].targets[0]) and '~' in unparse(red[0].targets[0]) and chp in unparse(red[0].targets[0])
-    red2 = PF.stmt('V_c = np.where(np.isin(V_c, %s), V_c, -1)' % chp) or PF.stmt('V_c2 = np.where(np.isin(V_c, %s), V_c, -1)' % chp) or \
-        PF.stmt('V_c = np.where(~np.isin(V_c, %s), -1, V_c)' % chp) or PF.stmt('V_c[np.isin(V_c, %s, invert=True)] = -1' % chp)
+    # the value that replaces a column which was not requested (the sentinel) and the last entry of the lookup table
+    PR = Pat(fs)
+    red = PR.stmt('V_c[~np.isin(V_c, %s)] = E_sent' % chp) or PR.stmt('V_c[np.isin(V_c, %s, invert=True)] = E_sent' % chp) or PR.stmt('V_c[np.logical_not(np.isin(V_c, %s))] = E_sent' % chp) or \
+        PR.stmt('V_c = np.where(np.isin(V_c, %s), V_c, E_sent)' % chp) or PR.stmt('V_c2 = np.where(np.isin(V_c, %s), V_c, E_sent)' % chp) or \
+        PR.stmt('V_c = np.where(~np.isin(V_c, %s), E_sent, V_c)' % chp) or PR.stmt('V_c[~np.in1d(V_c, %s)] = E_sent' % chp)
     any_isin = any(isinstance(c_, ast.Call) and dotted(c_.func) in ('np.isin', 'np.in1d') and not any(isinstance(a_, ast.Assert) for a_ in fs.ancestors(c_)) for c_ in fs.calls())
-    uses_discard = '-1' in src
-    tri(okr or red2 is not None, not red and red2 is None and uses_discard and not any_isin, red[0] if red else (red2 or 'from_sparse'), 'stored columns that were not requested are redirected to the discard slot (-1)',
-        'stored columns that were not requested are not redirected to the discard slot: their values land in a requested column or raise', fs)
-    look = [c for c in fs.calls() if dotted(c.func) == '_index_of']
-    lt = unparse(fs.expand(look[0].args[1])).replace(' ', '') if look else ''
-    tri(lt == 'np.r_[%s,-1]' % chp, lt in ('np.r_[-1,%s]' % chp, chp, 'np.r_[%s]' % chp), look[0] if look else 'from_sparse', 'lookup table = requested channels followed by the discard value',
-        'the lookup table is `%s`, expected the requested channels followed by the discard value (discard LAST, matching the dropped column)' % lt, fs)
+
+    def sentinel(e):
+        """'out': a negative constant, never a channel id; 'in': a value a requested channel can have (non-negative constant, a count of the requested channels);
+        None: not recognised."""
+        if e is None:
+            return None
+        x = fs.expand(e)
+        c_ = const_value(x)
+        if isinstance(c_, int) and not isinstance(c_, bool):
+            return 'out' if c_ < 0 else 'in'
+        if Pat().any(['len(%s)' % chp, '%s.size' % chp, '%s.shape[0]' % chp, 'len(%s) + E_k' % chp, 'np.max(%s) + 1' % chp, '%s.max() + 1' % chp], x):
+            # len(requested) is the id of a channel as soon as that id is requested (ids are arbitrary); max + 1 of the REQUESTED ids can be a stored id
+            return 'in' if not Pat().any(['np.max(%s) + 1' % chp, '%s.max() + 1' % chp], x) else None
+        return None
+    sent_node = None
+    if red is not None:
+        sent_node = red.value if isinstance(red.targets[0], ast.Subscript) else [a_ for a_ in red.value.args[1:] if not (isinstance(a_, ast.Name) and a_.id == PR.name('V_c'))][0]
+    sv = sentinel(sent_node)
+    if red is not None and sv == 'out':
+        ctx.holds('C06.A3', fs, 'stored columns that were not requested are redirected to the discard slot (a negative value, never a channel id)', red)
+    elif red is not None and sv == 'in':
+        ctx.violated('C06.A3', fs, red, 'columns that were not requested are replaced by `%s`, which a requested channel id can equal: their values then land in the column of that channel' % unparse(sent_node))
+    elif red is None and not any_isin and any(isinstance(c_, ast.Call) and dotted(c_.func) == '_index_of' for c_ in fs.calls()):
+        ctx.violated('C06.A3', fs, 'from_sparse', 'stored columns that were not requested are not redirected to the discard slot: their values land in a requested column or raise')
+    else:
+        ctx.undecided('C06.A3', fs, 'form not recognised: stored columns that were not requested are redirected to the discard slot', red)
+    look = [c for c in fs.calls() if dotted(c.func) == '_index_of' and len(c.args) >= 2]
+    lx = fs.expand(look[0].args[1]) if look else None
+    PL = Pat()
+    if lx is not None and PL.m('np.r_[%s, E_last]' % chp, lx) or (lx is not None and PL.any(['np.append(%s, E_last)' % chp, 'np.concatenate((%s, [E_last]))' % chp, 'np.hstack((%s, [E_last]))' % chp], lx)):
+        last = lx.slice.elts[1] if isinstance(lx, ast.Subscript) else (lx.args[1] if dotted(lx.func) == 'np.append' else lx.args[0].elts[1].elts[0])
+        same = sent_node is not None and ast.dump(fs.expand(last)) == ast.dump(fs.expand(sent_node))
+        if same:
+            ctx.holds('C06.A3', fs, 'lookup table = requested channels followed by the discard value', look[0])
+        elif sent_node is not None and const_value(fs.expand(last)) is not None and const_value(fs.expand(sent_node)) is not None:
+            ctx.violated('C06.A3', fs, look[0], 'the lookup table ends with `%s` but columns that were not requested hold `%s`: they are not found in the table' % (unparse(last), unparse(sent_node)))
+        else:
+            ctx.undecided('C06.A3', fs, 'form not recognised: the last entry of the lookup table is the discard value', look[0])
+    elif lx is not None and (Pat().m('np.r_[E_first, %s]' % chp, lx) or Pat().m(chp, lx) or Pat().m('np.r_[%s]' % chp, lx) or Pat().m('np.asarray(%s)' % chp, lx)):
+        ctx.violated('C06.A3', fs, look[0], 'the lookup table is `%s`, expected the requested channels followed by the discard value (discard LAST, matching the dropped column)' % unparse(lx))
+    else:
+        ctx.undecided('C06.A3', fs, 'form not recognised: lookup table = requested channels followed by the discard value', look[0] if look else None)
     shp = [x for x in fs.nodes(ast.Assign) if isinstance(x.targets[0], ast.Subscript) and unparse(x.targets[0]).startswith('out_shape[')]
     st_ = unparse(shp[0].value).replace(' ', '') if shp else ''
     if not shp:
